@@ -205,3 +205,69 @@ def gen_history(rng, case, nops, allow=("commit", "checkout", "status", "push", 
     case["ops"] = ops[:nops + 3]
     case["hist_info"] = info
     return case
+
+
+def pipeline_project(rng, cid, n, cyclic=False, tier="quick", all_edges=None):
+    """n stages with vcmd commands; edges j->i (i consumes an output of j). Returns the case and the
+    edge list. Outputs: file out/o<i>.txt or directory out/d<i> (vcmd writes f and sub/g into it)."""
+    init = []
+    stages = []
+    kinds = [rng.choice(["file", "file", "dir"]) for _ in range(n)]
+    if all_edges is None:
+        edges = [(j, i) for i in range(n) for j in range(i) if rng.random() < 0.45]
+    else:
+        edges = list(all_edges)
+    if cyclic and n >= 2:
+        a, b = rng.sample(range(n), 2)
+        lo, hi = min(a, b), max(a, b)
+        if (lo, hi) not in edges:
+            edges.append((lo, hi))
+        edges.append((hi, lo))            # closes a cycle
+    names = [b"st%d.yaml" % i for i in range(n)]
+    outpath = [(b"out/o%d.txt" % i) if kinds[i] == "file" else (b"out/d%d" % i) for i in range(n)]
+    nested_used = False
+    for i in range(n):
+        ins = []
+        args_in = []
+        for (j, k) in edges:
+            if k != i:
+                continue
+            if kinds[j] == "dir":
+                how = rng.choice(["dir", "nested", "nested2"])
+                if how == "dir":
+                    ins.append((outpath[j], "d"))
+                    args_in.append(outpath[j])
+                elif how == "nested":
+                    ins.append((outpath[j] + b"/f", ""))
+                    args_in.append(outpath[j] + b"/f")
+                    nested_used = True
+                else:
+                    ins.append((outpath[j] + b"/sub/g", ""))
+                    args_in.append(outpath[j] + b"/sub/g")
+                    nested_used = True
+            else:
+                ins.append((outpath[j], ""))
+                args_in.append(outpath[j])
+        has_src = rng.random() < 0.6 or not ins
+        if has_src and rng.random() < 0.85:
+            sp = b"src/s%d.txt" % i
+            init.append(("file", sp, "g:%d:%d" % (rng.randrange(1000), rng.choice([0, 3, 40, 70000] if tier == "thorough" else [0, 3, 40]))))
+            ins.append((sp, ""))
+            args_in.append(sp)
+        # de-duplicate inputs by path
+        seen = set()
+        ins = [x for x in ins if not (x[0] in seen or seen.add(x[0]))]
+        seen = set()
+        args_in = [x for x in args_in if not (x in seen or seen.add(x))]
+        out_arg = outpath[i] + (b"/" if kinds[i] == "dir" else b"")
+        cmd = b"vcmd S%d " % i + out_arg + b" -- " + b" ".join(args_in)
+        st = dict(cmd=cmd.strip(), wd=b".", out=[(outpath[i], "d" if kinds[i] == "dir" else "")])
+        if ins:
+            st["in"] = ins
+        stages.append((names[i], st))
+    case = dict(id=cid, init=init, stages=stages, ops=[], cache=rng.choice(["rel", "rel", "abs"]))
+    case["edges"] = edges
+    case["kinds"] = kinds
+    case["nested"] = nested_used
+    case["cyclic"] = cyclic
+    return case
